@@ -50,7 +50,22 @@ def record(db, raw, tier: str, seed: int):
                 o.update(project.pmsg(msg, dd, raw_by_id.get(msg.id)))
             recs.append(o)
             meta.append((d["id"], tag))
+    # every key of every lookup / bit-lookup table once (the tables are part of the translated database)
+    n_tab = 0
+    for d, tag, payload in corpus.table_sweep(db, lambda d: d["decodable"]):
+        o = observe(dec, d, raw_by_id[d["id"]], payload)
+        if isinstance(o, tuple):
+            msg = o[1]
+            o = {"pgn": d["pgn"], "p": list(payload), "ret": "msg", "err": ""}
+            o.update(project.pmsg(msg, by_id.get(msg.id), raw_by_id.get(msg.id)))
+        recs.append(o)
+        meta.append((d["id"], tag))
+        n_tab += 1
+    TABLE_SWEEP[0] = n_tab
     return recs, meta
+
+
+TABLE_SWEEP = [0]
 
 
 def model(chk: Check, tier: str):
@@ -92,6 +107,7 @@ def bind(chk: Check, tier: str, seed: int):
                           + (f" [{recs[i]['err']}]" if recs[i]["err"] else ""),
                           {"def": meta[i][0], "tag": meta[i][1], "payload": bytes(recs[i]["p"]).hex(), "verdict": v,
                            "observed": recs[i]["f"][v["f"] - 1] if v["f"] > 0 and recs[i]["f"] else None})
+    chk.add(lookup_table_entries_swept=TABLE_SWEEP[0])
     chk.add(programs=len(progs), disagreements_checked=len(recs), records=len(recs), returned=returned,
             definitions_in_db=len(db["defs"]), traces_validated_against_impl=len(recs))
     for i in (0, len(recs) // 2):
